@@ -236,6 +236,65 @@ let net_obs (f : string list) =
       if show_rt !i_rt <> l then oracle "fib-prefixes-map-differs-from-command-fold" (Printf.sprintf "fold=%s map=%s" (show_rt !i_rt) l)
   | _ -> Printf.printf "BADLINE %d obs %s\n" !lineno (String.concat " " f)
 
+(* ------------------------------------------------------------------ command executor (NfdMgmtThread.Start) *)
+let x_mode = ref false        (* executor history: fib case with header  case fib k x seed perm *)
+let x_perm = ref false
+let x_state : (n * cmd) xstate ref = ref xinit       (* commands carry the instance number *)
+let x_seen : (string, unit) Hashtbl.t = Hashtbl.create 97
+let x_dropped = ref false
+let fib_retries = Zpos (XI XH)                         (* Retries: 3 in dv/table/fib.go *)
+
+let rt_of_string (l : string) : rtable =
+  if l = "-" then [] else
+  List.map (fun s -> match String.split_on_char ':' s with
+    | [p; f; c] -> ((n_of_dec p, n_of_dec f), n_of_dec c) | _ -> ((N0, N0), N0)) (String.split_on_char ',' l)
+
+(* replay the observed ExecMgmtCmd calls (installer commands only) on the executor model: commands are enqueued in the
+   order of their first attempt; the fault outcomes are inputs; at every call the model must be working on that command *)
+let exec_attempts (l : string) =
+  let items = if l = "-" then [] else String.split_on_char ',' l in
+  let parsed = List.filter_map (fun s -> match String.split_on_char '|' s with
+    | [id; cs; res] when cs <> "o" -> (match parse_cmd cs with Some c -> Some (id, c, res = "F") | None -> None)
+    | _ -> None) items in
+  List.iter (fun (id, c, _) ->
+    if not (Hashtbl.mem x_seen id) then begin
+      Hashtbl.replace x_seen id ();
+      x_state := xstep !x_state (XEnq { x_cmd = (n_of_dec id, c); x_retries = fib_retries })
+    end) parsed;
+  let bad = ref false in
+  List.iter (fun (id, c, fail) ->
+    if not !bad then begin
+      (* let the model reach its next ExecMgmtCmd call *)
+      let rec advance k =
+        if k > 0 then match !x_state.x_cur with
+          | None -> if !x_state.x_q <> [] then (x_state := xstep !x_state (XTick false); advance (k - 1))
+          | Some (xc, i) -> if not (loop_cond xc i) then (x_dropped := true; x_state := xstep !x_state (XTick false); advance (k - 1)) in
+      advance 100000;
+      (match !x_state.x_cur with
+       | Some (xc, _) when fst xc.x_cmd = n_of_dec id -> x_state := xstep !x_state (XTick fail)
+       | Some (xc, _) ->
+           bad := true;
+           diverge "executor-order" (Printf.sprintf "working on instance %s (%s)" (dec_of_n (fst xc.x_cmd)) (show_cmd (snd xc.x_cmd)))
+             (Printf.sprintf "ExecMgmtCmd for instance %s (%s)" id (show_cmd c))
+       | None -> bad := true; diverge "executor-order" "queue empty" (Printf.sprintf "ExecMgmtCmd for instance %s" id))
+    end) parsed;
+  (* a command whose budget is exhausted is dropped *)
+  (match !x_state.x_cur with Some (xc, i) when not (loop_cond xc i) -> x_dropped := true; x_state := xstep !x_state (XTick false) | _ -> ())
+
+let exec_fwd (l : string) =
+  let fwd = rt_of_string l in
+  (* correspondence: the forwarder's table is the fold of the model's log of successful commands *)
+  let m = rt_run [] (List.map snd !x_state.x_log) in
+  if show_rt m <> show_rt fwd then diverge "executor-forwarder-table" (show_rt m) (show_rt fwd);
+  (* spec: with faults within the retry budget the forwarder holds exactly what the tables prescribe *)
+  if not !x_dropped then begin
+    let t = cur_tables () in
+    if not (mirrorsb t fwd) then begin
+      let k, d = mismatch_detail t fwd in
+      oracle (Printf.sprintf "fwd-%s-route-after-executor" k) d
+    end
+  end
+
 (* PrefixTable.Apply on arbitrary op lists (reset + adds + removes, duplicates) against apply_ops / apply_dirty *)
 let m_pfxsets : (string, n list) Hashtbl.t = Hashtbl.create 17
 let apply_obs router reset adds rems dirty set =
@@ -250,6 +309,8 @@ let apply_obs router reset adds rems dirty set =
 let fib_obs (f : string list) =
   match f with
   | ["apply"; router; reset; adds; rems; dirty; set] -> apply_obs router reset adds rems dirty set
+  | ["attempts"; l] -> exec_attempts l
+  | ["fwd"; l] -> exec_fwd l
   | ["cmds"; l] ->
       let items = if l = "-" then [] else String.split_on_char ',' l in
       let parsed = List.map (fun s -> (s, parse_cmd s)) items in
@@ -264,7 +325,7 @@ let fib_obs (f : string list) =
       let m = show_fibst !m_fib in
       if m <> i then diverge "fib" m i;
       (* invariant of the statement on the implementation: installed (fold of its commands) = its prefixes map *)
-      if show_rt !i_rt <> l then oracle "fib-prefixes-map-differs-from-command-fold" (Printf.sprintf "fold=%s map=%s" (show_rt !i_rt) l)
+      if not !x_mode && show_rt !i_rt <> l then oracle "fib-prefixes-map-differs-from-command-fold" (Printf.sprintf "fold=%s map=%s" (show_rt !i_rt) l)
   | _ -> Printf.printf "BADLINE %d obs %s\n" !lineno (String.concat " " f)
 
 let kind = ref ""
@@ -279,8 +340,12 @@ let () =
           kind := "pfx"; case_id := "pfx" ^ k; incr n_cases;
           m_pub := pub_new (n_of_dec s0);
           Hashtbl.reset m_peers; Hashtbl.reset i_hist; Hashtbl.reset i_last; Hashtbl.reset i_ans_src; i_init := s0
-      | "case" :: "fib" :: k :: _ ->
+      | "case" :: "fib" :: k :: rest ->
           kind := "fib"; case_id := "fib" ^ k; incr n_cases;
+          (match rest with
+           | ["x"; _; p] -> x_mode := true; x_perm := (p = "1"); case_id := "fibx" ^ k
+           | _ -> x_mode := false);
+          x_state := xinit; Hashtbl.reset x_seen; x_dropped := false;
           m_fib := fib_empty; m_rt := []; i_rt := []; m_cmds := []; Hashtbl.reset m_pfxsets
       | "op" :: f -> incr n_ops; (match !kind with "pfx" -> pfx_op f | _ -> ())
       | "tab" :: f -> fib_tab f
